@@ -1122,7 +1122,7 @@ func withViewOnly(g *Graph, variant int) *Graph {
 		vn2.Views = []View{{Name: "default", Fields: []string{"a", "deep"}, Alt: map[string]int{"deep": n + 3}}, {Name: "tiny", Fields: []string{"a"}}}
 	}
 	vp := &UT{Name: "VP", UID: "application/vnd.vp", Result: true,
-		A: O(Fd("x", P("int")), Fd("nested", Rf(n)), Fd("orig", o.Root)),
+		A:     O(Fd("x", P("int")), Fd("nested", Rf(n)), Fd("orig", o.Root)),
 		Views: []View{{Name: "default", Fields: []string{"x", "nested"}, Alt: map[string]int{"nested": n + 1}}, {Name: "link", Fields: []string{"x"}}}}
 	o.UTs = append(o.UTs, vn, vn2, vp)
 	if variant%2 == 1 {
